@@ -170,3 +170,12 @@ JOBS.append({
     "allow_no_body": ["tinyjambu_hash", "memcpy", "memset"],
     "unbounded": "every keylen and inlen (all of size_t)",
 })
+
+for nm, d in (("hmac.reinit.u", "TJV_REINIT"), ("hmac.update.seq", "TJV_UPDATE")):
+    JOBS.append({
+        "name": nm, "files": ["harness/h_hmac_setkey.c", HMAC, "stubs/mem.c", "stubs/clean_stub.c"], "defs": [d],
+        "functions": ["tinyjambu_hmac_reinit" if "REINIT" in d else "tinyjambu_hmac_update"],
+        "props": ["C12", "C06"], "default_props": ["C12"], "tags": [(r"^hmac set_key:", ["C12"])], "unwind": 66, "cost": 20, "mem_gb": 8, "mem_share": 0.3,
+        "unbounded": "every length <= 2^40, exact-size object, arbitrary prior state contents",
+        "assumes": ["hash API replaced by a protocol-recording contract stub (arbitrary digest)"],
+    })
